@@ -34,8 +34,9 @@ DIMS = {
     "ems": [None, "off", "require"],
     "record_size_limit": [None, 64, 0, 16384, 1000],
     "alpn": [None, [b"h2", b"http/1.1"], [b"http/1.1"], [b"spdy/3"]],
+    "psk_modes": [None, ["psk_ke"], ["psk_dhe_ke"]],
 }
-SERVER_CREDS = ["rsa", "ecdsa", "rsapss", "rsa+req", "rsa+reqnone", "ecdsa+req", "anon", "rsa+resume", "rsa+chain"]
+SERVER_CREDS = ["rsa", "ecdsa", "rsapss", "rsa+req", "rsa+reqnone", "ecdsa+req", "anon", "rsa+resume", "rsa+chain", "rsa+psk"]
 
 
 def make_settings(choice):
@@ -80,7 +81,8 @@ def abstract(hs, alpn):
             "curves": list(v.eccCurves), "dhGroups": list(v.dhGroups), "minKey": v.minKeySize, "maxKey": v.maxKeySize,
             "rsaHashes": list(v.rsaSigHashes), "ecdsaHashes": list(v.ecdsaSigHashes), "rsaSchemes": list(v.rsaSchemes),
             "etm": bool(v.useEncryptThenMAC), "ems": bool(v.useExtendedMasterSecret), "reqEms": bool(v.requireExtendedMasterSecret),
-            "rsl": v.record_size_limit or 0, "alpn": [bytes(a).decode() for a in (alpn or [])]}
+            "rsl": v.record_size_limit or 0, "alpn": [bytes(a).decode() for a in (alpn or [])],
+            "pskModes": list(v.psk_modes)}
 
 
 def view(conn, role):
@@ -130,7 +132,39 @@ def view(conn, role):
             # server's own chain): the chains are compared for full handshakes only
             "srvChainH": "" if conn.resumed else chain_h(s.serverCertChain),
             "cltChainH": "" if conn.resumed else chain_h(s.clientCertChain),
-            "resumed": bool(conn.resumed)}
+            "resumed": bool(conn.resumed), "pskMode": ""}
+
+
+def _psk_mode(wire):
+    """how the (last) ServerHello the server sent uses a PSK: "" (not at all), "psk_ke" (pre_shared_key without
+    key_share) or "psk_dhe_ke" (both)"""
+    from tlslite.messages import ServerHello
+    from tlslite.utils.codec import Parser
+    from tlslite.constants import ExtensionType
+    wire = bytes(wire)
+    mode = ""
+    # the plaintext handshake stream (a small record size limit spreads the ServerHello over several records)
+    hs = bytearray()
+    i = 0
+    while i + 5 <= len(wire) and wire[i] in (20, 22):
+        ln = (wire[i + 3] << 8) | wire[i + 4]
+        if wire[i] == 22:
+            hs += wire[i + 5:i + 5 + ln]
+        i += 5 + ln
+    i = 0
+    while i + 4 <= len(hs):
+        ln = int.from_bytes(hs[i + 1:i + 4], "big")
+        if hs[i] == 2 and i + 4 + ln <= len(hs):
+            try:
+                sh = ServerHello().parse(Parser(bytearray(hs[i + 1:i + 4 + ln])))
+            except Exception:
+                break
+            if sh.getExtension(ExtensionType.pre_shared_key) is not None:
+                mode = "psk_dhe_ke" if sh.getExtension(ExtensionType.key_share) is not None else "psk_ke"
+            else:
+                mode = ""
+        i += 4 + ln
+    return mode
 
 
 _CAND = None
@@ -201,6 +235,7 @@ def _run_pair(idx, cchoice, schoice, scred):
     ckw = dict(settings=chs, serverName="host.example")
     cltbits = 0
     prior = None
+    use_psk = False
     if ca == "resume":
         # a session made under the server's DEFAULT policy (TLS 1.2, session cache) is offered to the server after
         # its policy changed to `schoice`: whatever happens then must be within the NEW policy
@@ -231,6 +266,13 @@ def _run_pair(idx, cchoice, schoice, scred):
         ckw["session"] = prior
         skw_cache = cache
         ca = ""
+    elif ca == "psk":
+        # an external PSK configured on both sides (used by TLS 1.3 only); the server keeps its certificate
+        for hs in (chs, shs):
+            hs.pskConfigs = [(b"verif-psk", b"\x11" * 32, "sha256")]
+        skw_cache = None
+        ca = ""
+        use_psk = True
     elif ca == "chain":
         # a server chain with two certificates
         from ..endpoints import _load_chain, _load_key
@@ -266,6 +308,13 @@ def _run_pair(idx, cchoice, schoice, scred):
     if ok:
         res["c"] = view(p.c, "c")
         res["s"] = view(p.s, "s")
+        if use_psk:
+            res["c"]["pskMode"] = _psk_mode(p.s2c.dlv_log)
+            res["s"]["pskMode"] = _psk_mode(p.s2c.sent_log)
+            for side in ("c", "s"):
+                if res[side]["pskMode"]:
+                    # a PSK handshake exchanges no certificates (the server object still knows its own chain)
+                    res[side]["srvChainH"] = res[side]["cltChainH"] = ""
         # data both ways as a sanity check of the agreed keys
         p.write("c", b"ping")
         o = p.read("s", None, 4)
